@@ -1,13 +1,17 @@
-"""C04 — decided on the shared gen-driver (checks/gendrive.py)."""
+"""C04 — decided on the shared gen-driver (checks/gendrive.py), plus MolGen.attach_other used directly on shared fragments."""
 from . import gendrive
 from .gendrive_meta import META
 
 PROPERTY = "C04"
-FUNCTIONS = gendrive_functions = META["functions"]
-EXPLANATION = META["C04"]["explanation"]
+FUNCTIONS = META["functions"]
+EXPLANATION = META["C04"]["explanation"] + (
+    " Direct use of the public MolGen.attach_other: one fragment object is attached to two different cores (and a product is grown "
+    "further after its fragment was attached elsewhere); every bond must join the descriptor atoms, whichever open descriptors are "
+    "picked (symbolic indices)."
+)
 ASSUMPTIONS = META["assumptions"]
 OUTSIDE = META["C04"]["outside"]
-REQUIRED_LABELS = META["C04"]["required"]
+REQUIRED_LABELS = META["C04"]["required"] + ["reuse: the bond joins the atoms the two descriptors sit on"]
 
 
 def bounds(tier):
@@ -15,12 +19,72 @@ def bounds(tier):
 
 
 def cases(tier):
-    return gendrive.gen_cases(tier)
+    return gendrive.gen_cases(tier) + [{"name": "attach-other/fragment-used-twice", "reuse": True}]
+
+
+CORES = ["[$]CC([$])C", "[$]N(C)[$]"]
+ARM = "[$]C(F)(F)C(F)(F)[$]"
+
+
+def _reuse(g, picks, prove):
+    """attach one MolGen of ARM to two cores in turn, then grow the first product again; prove(cond, label) per obligation"""
+    from rdkit import Chem
+
+    import sys
+
+    MolGen = sys.modules["gbigsmiles.mol_gen"].MolGen
+
+    def frag(text):
+        return MolGen(g.SmilesToken(text, 0, 0))
+
+    arm = frag(ARM)
+    arm_atoms = [int(bd.atom_bonding_to) for bd in arm.bond_descriptors]
+    products = []
+    for k, core_text in enumerate(CORES):
+        core = frag(core_text)
+        i, j = picks[2 * k] % len(core.bond_descriptors), picks[2 * k + 1] % len(arm.bond_descriptors)
+        a_core = int(core.bond_descriptors[i].atom_bonding_to)
+        n_core = core._mol.GetNumAtoms()
+        nb_core, nb_arm = core._mol.GetNumBonds(), arm._mol.GetNumBonds()
+        want_arm_atom = [int(bd.atom_bonding_to) for bd in arm.bond_descriptors][j]
+        prove(want_arm_atom == arm_atoms[j], "reuse: attaching a fragment leaves the fragment object's descriptors untouched")
+        res = core.attach_other(i, arm, j)
+        bond = res._mol.GetBondBetweenAtoms(a_core, n_core + arm_atoms[j])
+        prove(bond is not None and res._mol.GetNumBonds() == nb_core + nb_arm + 1,
+              "reuse: the bond joins the atoms the two descriptors sit on")
+        try:
+            res.mol
+            ok = True
+        except Exception:
+            ok = False
+        prove(ok, "reuse: the product sanitises")
+        products.append(res)
+    return products
 
 
 def run_case(case, g, tier, res):
+    if case.get("reuse"):
+        from .common import collector, explore_case
+
+        def h(c):
+            picks = [c.fresh_int(f"pick{k}", 0, 1).__index__() for k in range(4)]
+
+            def prove(cond, label):
+                def build(mv, c):
+                    return (f"C04:{label}", f"{label}: fragment {ARM} attached to the cores {CORES} with descriptor picks {picks}", {"kind": "reuse", "picks": picks, "label": label})
+                c.prove(cond, label, build)
+
+            _reuse(g, picks, prove)
+            return tuple(picks)
+
+        explore_case(res, h, tier, on_path=collector(res, PROPERTY))
+        return
     gendrive.run_gen_case(case, g, tier, res, PROPERTY, {PROPERTY}, budget_s=META["budget"](tier))
 
 
 def replay(rp, gb):
+    if rp.get("kind") == "reuse":
+        failed = []
+        _reuse(gb, rp["picks"], lambda cond, label: failed.append(label) if not cond else None)
+        return rp["label"] in failed, f"failed: {failed}"
     return gendrive.replay_gen(rp, gb)
